@@ -309,6 +309,27 @@ pub async fn run_case(setup: String, events: String, take: bool) -> String {
                 }
                 outs.push("-".into());
             }
+            "T" => {
+                // several OS threads register usages in dialog d and drop the guards again, all at once (guards are dropped while other threads
+                // are inside the dialog layer): afterwards none of those usages is registered any more
+                let d: usize = p[1].parse().unwrap();
+                let threads: usize = p[2].parse().unwrap();
+                let iters: usize = p[3].parse().unwrap();
+                if let Some(dialog) = dialogs[d].as_ref() {
+                    std::thread::scope(|sc| {
+                        for _ in 0..threads {
+                            let lg = ulog.clone();
+                            sc.spawn(move || {
+                                for _ in 0..iters {
+                                    let g = dialog.register_usage(RecUsage { id: (d * 10 + 9) as u32, log: lg.clone(), take: false });
+                                    drop(g);
+                                }
+                            });
+                        }
+                    });
+                }
+                outs.push("-".into());
+            }
             "X" => {
                 // the application lets go of dialog d altogether (its usages first, then the dialog): a lost fork is released
                 let d: usize = p[1].parse().unwrap();
